@@ -35,6 +35,20 @@ def snapshot(root):
 HOSTILE_NAMES = [b'../../x', b'/', b'a/b', b'.', b'..', b'-rf', b'/etc/pw', b'..\x00', b'x\ny', b'\x01\x02', b'a b', b'~', b'$HOME', b'`id`', b'*', b'A' * 7, b'../x', b'/x', b'x/', b'//']
 
 
+WATCHED = ['/', '/tmp', os.path.expanduser('~'), '/var/tmp']
+
+
+def outside_listing():
+    """names directly inside a few directories an absolute or home-relative path would land in"""
+    out = set()
+    for d in WATCHED:
+        try:
+            out.update(os.path.join(d, n) for n in os.listdir(d))
+        except OSError:
+            pass
+    return out
+
+
 def hostile_disc(r, k=0):
     files = []
     pos = 2
@@ -91,8 +105,10 @@ def run(ctx):
                     os.makedirs(os.path.join(cwd, dd))
                 os.makedirs(os.path.join(cwd, longdest))
                 before = snapshot(sb)
+                out_before = outside_listing()
                 rc, so, se = vlib.run_cmd([impl['dfs'], '--file', 'images/disc' + d.extension()] + cmd, cwd=cwd, timeout=30)
                 after = snapshot(sb)
+                escaped = sorted(p for p in outside_listing() - out_before if not os.path.basename(p).startswith(('beebverif', 'tmp', 'LeafCandidate', 'lake', '.lake')))
                 ctx.oracle_cases += 1
                 ctx.count('cmd.' + (cmd[0] if not cmd[0].startswith('--') else cmd[2]))
                 ctx.case((k, tuple(cmd)), hostile, sample={'cmd': cmd, 'names': [bytes([f.dir]).decode('latin-1') + '.' + f.shown_name().decode('latin-1') for (_, _, _, f) in d.all_files()][:6]})
@@ -109,6 +125,17 @@ def run(ctx):
                 bad = [p for p in created if not (allowed_prefix and p.startswith(allowed_prefix) and '/' not in p[len(allowed_prefix):].rstrip('/') )]
                 # a created *directory* is never legitimate
                 bad += [p for p in created if p.endswith('/')]
+                if escaped:
+                    # other processes also create files in /tmp: only names that come from this catalogue count
+                    names = [f.shown_name() for (_, _, _, f) in d.all_files()]
+                    mine = [p for p in escaped if any(nm and nm.replace(b'/', b'_').decode('latin-1') in os.path.basename(p) for nm in names)]
+                    for p in mine:
+                        try:
+                            os.unlink(p)
+                        except OSError:
+                            pass
+                    if mine:
+                        ctx.violation('created-outside-sandbox', '`%s` created %s, far outside the destination directory' % (' '.join(cmd), mine[:3]), rp)
                 if changed or removed:
                     key = 'image-altered' if any('images/' in p for p in changed + removed) else 'file-altered'
                     ctx.violation(key, '`%s` altered or removed %s' % (' '.join(cmd), (changed + removed)[:3]), rp)
